@@ -79,13 +79,15 @@ def program(name, method, branches, cap):
                 assert!(q.parse_direction() == dir_in);
             }
         }
-        must_reach!(b != 255, "a branch was taken (trim forms: the macro ran)");
+        // (a program whose literals are all longer than the input bound can never take a branch)
+        let fits = { let mut f = false; let mut bi = 0; while bi < ALTS.len() { let mut ai = 0; while ai < ALTS[bi].len() { f |= ALTS[bi][ai].len() <= %d; ai += 1; } bi += 1; } f };
+        must_reach!(b != 255 || !fits, "a branch was taken (trim forms: the macro ran)");
         must_reach!(w.len() == %d, "full-length input");
     }
     tiers1! { %s: unwind(%d, %d), check(), check(),
         calls("konst::parser_method!(.., %s; ..)", "konst_proc_macros::__priv_bstr_start/__priv_bstr_end (output only)"),
         bounds("every valid UTF-8 input <=%d bytes, base <= 2^20; literals: %s", "same") }
-""" % (cap, ".skip_back(0)" if front else "", spec, post, "FromStart" if front else "FromEnd", cap, name, cap + 4, cap + 4, method, cap,
+""" % (cap, ".skip_back(0)" if front else "", spec, post, "FromStart" if front else "FromEnd", cap, cap, name, cap + 4, cap + 4, method, cap,
        " / ".join(" | ".join(b) for b in branches).replace("\\", "\\\\").replace('"', "'").replace("\n", "<newline>"))
     return plain, harness, inv
 
